@@ -549,6 +549,22 @@ def dict_stream(ctx, res, n):
         cp = proxy.copy()
         if type(cp).__name__ != "DictProxy" or dict(cp) != dict(proxy):
             res.violate("C17:copy-untyped", "copy of a typed dict is not a typed dict with the same entries", {"stream": "dict"})
+        # the in-place operators written on the configuration's attribute (`cfg.d |= m`, like `obj.d |= m` for a built-in dict held by
+        # an object) change the dict that is held: a reference taken before still is the held dict and sees the change
+        try:
+            held = cfg.dct
+            before = dict(held)
+            cfg.dct |= {}
+            cfg.dct |= dict(before)
+            same_obj = cfg.dct is held
+            cfg.dct = cfg.dct                   # re-assigning what is held is not a replacement either
+            same_obj = same_obj and cfg.dct is held
+            if not same_obj or dict(held) != before:
+                res.violate("C17:in-place-operator-rebinds", "`cfg.d |= mapping` (or assigning the held dict to its own field) replaced the typed dict by a copy: "
+                            "a reference taken before no longer is the dict the configuration holds", {"stream": "dict", "value_field": vfield})
+            res.hist["dop:attr-ior"] += 1
+        except Exception:  # noqa
+            pass
         res.case(stable([vfield, wire_ops]) if len(kinds_used) >= 3 and nonlist else None, sample={"value_field": vfield, "ops": wire_ops[:4]} if i < 2 else None,
                  kind="dict-history")
         for k in kinds_used:
@@ -584,10 +600,88 @@ def dict_stream(ctx, res, n):
                     break
 
 
+def dict_forms_stream(ctx, res):
+    """call forms and queries of typed dicts that the history stream does not draw: `update` with an object that merely offers
+    keys() and __getitem__ (what dict.update accepts), `setdefault(key)` for a key that is there when the value field is required,
+    and `==` / `!=` being each other's negation for every pair of operands"""
+    import cincoconfig as cc
+
+    class KeysOnly:
+        def __init__(self, d):
+            self._d = dict(d)
+
+        def keys(self):
+            return self._d.keys()
+
+        def __getitem__(self, k):
+            return self._d[k]
+
+    for required in (False, True):
+        s = cc.Schema()
+        s.d = cc.DictField(cc.StringField(), cc.IntField(required=required), default=dict)
+        s.e = cc.DictField(cc.StringField(), cc.IntField(required=required), default=dict)
+        a, b = s(), s()
+        a.d = {"x": 1, "y": 2}
+        builtin = {"x": 1, "y": 2}
+        case = {"stream": "dict-forms", "value_required": required}
+        # update(object with keys())
+        for what, arg in (("keys-and-getitem object", lambda: KeysOnly({"y": 20, "z": 3})), ("empty keys-and-getitem object", lambda: KeysOnly({})),
+                          ("os.environ-like mapping", lambda: __import__("collections").ChainMap({"w": 4}, {"x": 10}))):
+            res.case(stable([what, required]), kind="dict-forms:update")
+            try:
+                builtin.update(arg())
+                a.d.update(arg())
+            except Exception as e:  # noqa
+                res.violate("C17:dict-differs:update", "`typed.update(%s)` raised %s where the built-in dict accepts the argument" % (what, type(e).__name__), dict(case, form=what))
+                a.d = dict(builtin)
+                continue
+            if dict(a.d) != builtin:
+                res.violate("C17:dict-differs:update", "`typed.update(%s)` does not give what the built-in dict gives" % what, dict(case, form=what, typed=dict(a.d), builtin=builtin))
+                a.d = dict(builtin)
+        # setdefault(existing key): the entry that is there, untouched, whatever the (absent) default
+        res.case(stable(["setdefault-present", required]), kind="dict-forms:setdefault")
+        for form, call in (("setdefault(k)", lambda d: d.setdefault("x")), ("setdefault(k, None)", lambda d: d.setdefault("x", None)), ("setdefault(k, 5)", lambda d: d.setdefault("x", 5))):
+            want = call(dict(builtin))
+            try:
+                got = call(a.d)
+            except Exception as e:  # noqa
+                res.violate("C17:dict-differs:setdefault", "`typed.%s` for a key that is present raised %s; the built-in returns the entry" % (form, type(e).__name__),
+                            dict(case, form=form))
+                continue
+            if got != want or dict(a.d) != builtin:
+                res.violate("C17:dict-differs:setdefault", "`typed.%s` for a key that is present does not return the entry / changes the dict" % form, dict(case, form=form, got=got, want=want))
+        # == and != are each other's negation
+        b.d = dict(builtin)
+        a.e = dict(builtin)
+        res.case(stable(["eq-ne", required]), kind="dict-forms:eq-ne")
+        for what, other in (("equal typed dict of another configuration", b.d), ("equal typed dict of another field", a.e), ("itself", a.d), ("equal built-in dict", dict(builtin)),
+                            ("different built-in dict", {"q": 0}), ("None", None), ("a list", [1])):
+            try:
+                eq, ne = (a.d == other), (a.d != other)
+            except Exception as e:  # noqa
+                res.violate("C17:dict-differs:eq-ne", "comparing a typed dict with %s raised %s" % (what, type(e).__name__), dict(case, other=what))
+                continue
+            if eq == ne:
+                res.violate("C17:dict-differs:eq-ne", "`==` and `!=` of a typed dict against %s are both %s" % (what, eq), dict(case, other=what))
+    # the same for typed lists
+    s = cc.Schema()
+    s.l = cc.ListField(cc.IntField(), default=lambda: [])
+    s.m = cc.ListField(cc.IntField(), default=lambda: [])
+    a, b = s(), s()
+    a.l, b.l, a.m = [1, 2], [1, 2], [1, 2]
+    res.case("list-eq-ne", kind="dict-forms:list-eq-ne")
+    for what, other in (("equal typed list of another configuration", b.l), ("equal typed list of another field", a.m), ("itself", a.l), ("equal built-in list", [1, 2]),
+                        ("different list", [3]), ("None", None), ("a tuple", (1, 2))):
+        eq, ne = (a.l == other), (a.l != other)
+        if eq == ne:
+            res.violate("C17:list-differs:eq-ne", "`==` and `!=` of a typed list against %s are both %s" % (what, eq), {"stream": "dict-forms", "other": what})
+
+
 def run(ctx, n_quick=400, n_thorough=20000):
     res = Result()
     guard(res, "C17", list_stream, ctx, res, ctx.n(n_quick, n_thorough))
     guard(res, "C17", dict_stream, ctx, res, ctx.n(n_quick, n_thorough))
+    guard(res, "C17", dict_forms_stream, ctx, res)
     return res
 
 
